@@ -475,7 +475,8 @@ def _def_nodes(g: CFG) -> dict[str, dict[int, ast.expr | None]]:
         elif isinstance(st, ast.AnnAssign) and isinstance(st.target, ast.Name) and st.value is not None:
             out.setdefault(st.target.id, {})[n.id] = st.value
         elif isinstance(st, ast.AugAssign) and isinstance(st.target, ast.Name):
-            out.setdefault(st.target.id, {})[n.id] = None
+            # x op= v  defines x as (previous x) op v
+            out.setdefault(st.target.id, {})[n.id] = ast.copy_location(ast.BinOp(left=ast.Name(id=st.target.id, ctx=ast.Load()), op=st.op, right=st.value), st)
         if isinstance(st, ast.stmt):
             for x in ast.walk(st):
                 if isinstance(x, ast.NamedExpr) and isinstance(x.target, ast.Name):
